@@ -3,7 +3,9 @@ package props
 import (
 	"bytes"
 	"crypto/rand"
+	"crypto/rsa"
 	"crypto/tls"
+	"crypto/x509"
 	"encoding/base64"
 	"fmt"
 	"math"
@@ -22,9 +24,25 @@ import (
 
 func init() {
 	register(&Prop{ID: "C09", Run: runC09, MinNontrivial: 200, RaceSecondPass: true,
-		Rule:        "each case = one input string presented to all six inbound entry points (plus direct DecryptBytes/Decrypt/DecryptSymmetricKey calls in the cipher classes) under one of 12 SP configurations (empty store, no keys, nil clock, skip on/off, encryption-cert validation with empty/junk cert, decompression limits MaxInt64 / negative / MinInt64 / 1); classes: end-to-end ciphertext matrix (valid wrapped key, data ciphertext of every length 0-80, every final padding byte, all-zero plaintext, wrong key sizes, unknown algorithms, EncryptedKey ciphertext lengths 0-300), truncations/bit-flips/splices/base64+DEFLATE damage of generated and captured messages, hostile shapes (deep/wide trees, many Signatures, malformed Signature parts, DOCTYPE); oracle: no panic, process survives, exactly one of result/error; non-trivial = input that base64-decodes (reaches inflate/XML/crypto logic); a second pass repeats a subset under the race detector (checkptr)",
+		Rule:        "each case = one input string presented to all six inbound entry points (plus direct DecryptBytes/Decrypt/DecryptSymmetricKey calls in the cipher classes) under one of 16 SP configurations (incl. certificate/key stores that return errors or nil entries, an ECDSA key given as encryption key) (empty store, no keys, nil clock, skip on/off, encryption-cert validation with empty/junk cert, decompression limits MaxInt64 / negative / MinInt64 / 1); classes: end-to-end ciphertext matrix (valid wrapped key, data ciphertext of every length 0-80, every final padding byte, all-zero plaintext, wrong key sizes, unknown algorithms, EncryptedKey ciphertext lengths 0-300), truncations/bit-flips/splices/base64+DEFLATE damage of generated and captured messages, hostile shapes (deep/wide trees, many Signatures, malformed Signature parts, DOCTYPE); oracle: no panic, process survives, exactly one of result/error; non-trivial = input that base64-decodes (reaches inflate/XML/crypto logic); a second pass repeats a subset under the race detector (checkptr)",
 		Assumptions: []string{"a watchdog firing is inconclusive, not a violation (the round-trip screen is super-linear on deep trees)", "DecryptBytes may return (nil, nil) for an empty plaintext; slice nil-ness is not tested"}})
 }
+
+type failingStore struct{}
+
+func (failingStore) Certificates() ([]*x509.Certificate, error) {
+	return nil, fmt.Errorf("certificate store unavailable")
+}
+
+type failingKeyStore struct{}
+
+func (failingKeyStore) GetKeyPair() (*rsa.PrivateKey, []byte, error) {
+	return nil, nil, fmt.Errorf("key store unavailable")
+}
+
+type nilKeyStore struct{}
+
+func (nilKeyStore) GetKeyPair() (*rsa.PrivateKey, []byte, error) { return nil, nil, nil }
 
 type c09cfg struct {
 	name string
@@ -76,6 +94,30 @@ func c09Configs() []c09cfg {
 			sp, _, _ := NewSP(w.Now, w.IdP[0])
 			sp.ValidateEncryptionCert = true
 			sp.SPKeyStore = dsig.TLSCertKeyStore(tls.Certificate{Certificate: [][]byte{[]byte("junk-not-der")}, PrivateKey: w.SPEnc.Key.RSA()})
+			return sp
+		}},
+		{"store-error", func(w *World) *saml2.SAMLServiceProvider {
+			sp, _, _ := NewSP(w.Now)
+			sp.IDPCertificateStore = failingStore{}
+			sp.SPKeyStore = failingKeyStore{}
+			return sp
+		}},
+		{"store-nil-entries", func(w *World) *saml2.SAMLServiceProvider {
+			sp, _, _ := NewSP(w.Now)
+			sp.IDPCertificateStore = &dsig.MemoryX509CertificateStore{Roots: []*x509.Certificate{w.IdP[0].X509}}
+			sp.SPKeyStore = nilKeyStore{}
+			sp.ValidateEncryptionCert = true
+			return sp
+		}},
+		{"setter-nil-cert", func(w *World) *saml2.SAMLServiceProvider {
+			sp, _, _ := NewSP(w.Now, w.IdP[0])
+			sp.SetSPKeyStore(&saml2.KeyStore{Signer: w.SPEnc.Key.Signer})
+			sp.ValidateEncryptionCert = true
+			return sp
+		}},
+		{"setter-ec-key", func(w *World) *saml2.SAMLServiceProvider {
+			sp, _, _ := NewSP(w.Now, w.IdP[0])
+			sp.SetSPKeyStore(&saml2.KeyStore{Signer: w.IdP[2].Key.Signer, Cert: w.IdP[2].DER})
 			return sp
 		}},
 		{"limit-maxint64", func(w *World) *saml2.SAMLServiceProvider {
@@ -301,7 +343,7 @@ func runC09(c *mon.Ctx) {
 		cs.Desc("alg=%s keyalg=%s %s", t.alg, ka, t.desc)
 		cs.Input([]byte(doc))
 		cs.Nontrivial(cs.Description())
-		cfg := cfgByName(cfgs, []string{"full", "skip", "setter", "limit-maxint64"}[k%4])
+		cfg := cfgByName(cfgs, []string{"full", "skip", "setter", "limit-maxint64", "store-error", "store-nil-entries", "setter-nil-cert", "setter-ec-key"}[k%8])
 		c09Call(cs, cfg.mk(w), cfg.name, b64([]byte(doc)))
 		// direct calls
 		eaT := &types.EncryptedAssertion{CipherValue: b64(t.data), EncryptionMethod: types.EncryptionMethod{Algorithm: t.alg},
